@@ -20,7 +20,7 @@ REDUCE_KEYS = ["pdb"]      # (cases of the several-molecules stage are saved unr
 LEVEL = "exploration"
 RULE = ("generated structures with shifted pKa values x user grids -g min max step (steps 0.1-2 incl. decimal steps "
         "that do not accumulate exactly such as 0.7 and 0.3, negative minima, maxima above 14) x windows -w (inside, "
-        "equal to, larger than the grid; steps 0.5, 1, 2, 3) x both reference states x parameter files with shifted "
+        "equal to, larger than the grid; steps 0.1 .. 3 incl. 0.25, 0.75, 1.25) x both reference states x parameter files with shifted "
         "model pKa values (run in one process after each other); histories in which 1-3 molecules (incl. multi-"
         "conformation inputs) are calculated before any profile or file is requested, then every conformation is "
         "queried twice and written with propka.output.write_pka(conformation=...). Non-trivial: predicted != model pKa for >= 1 acid "
@@ -268,7 +268,7 @@ def run_shard(ctx):
         mn = draw(st.sampled_from([0.0, 0.0, 1.0, -2.0, 3.5, 7.0, -0.5, 0.005, 6.125]))
         span = draw(st.sampled_from([14.0, 14.0, 7.0, 1.0, 10.0, 16.0, 2.1]))
         grid = (mn, mn + span, step)
-        wstep = draw(st.sampled_from([1.0, 1.0, 0.5, 2.0, 3.0, 0.1, 0.2]))
+        wstep = draw(st.sampled_from([1.0, 1.0, 0.5, 2.0, 3.0, 0.1, 0.2, 0.25, 0.75, 1.25, 1.5]))
         wmin = draw(st.sampled_from([0.0, 0.0, mn, 2.0, -2.0, 4.0]))
         wmax = draw(st.sampled_from([14.0, 14.0, mn + span, 9.0, 20.0, 6.0]))
         if wmax < wmin:
